@@ -1,14 +1,15 @@
 (* C12  Per-channel request limit throttles exactly the excess.
    Statements only; every proof is `exact <lemma>`.  Model: coq/Server.v (MaxRequests::poll_next
    over BaseChannel, Requests); monitors: coq/ServerMon.v; proofs: coq/ServerState.v,
-   coq/ServerProps.v, coq/ServerWitness.v.
+   coq/ServerProps.v, coq/ServerWitness.v, coq/ServerProofsPB*.v (monitor theorems),
+   coq/ServerExecProofs2.v (through execute()).
 
    Proved here, for every transport (any state type, any behaviour), every environment, every
    configuration (L = 0 included) and every op list:
      (a) the application is handed a request only below the limit (state form and trace form).
    Proved by computation: the witness of K1 (clause (c) is false of the code).
-   NOT yet proved as theorems (checked on every run by the monitor c12_ok / c12_rel_ok on the
-   real code's traces, and by the correspondence):
+   Monitor theorems (proved, see the end of this file; the monitors c12_ok / c12_rel_ok are also
+   evaluated on the real code's traces on every run, and the model is tied by the correspondence):
      C12_monitor_rel : forall c t0 ops, c12_rel_ok c ops (fst (srun c t0 ops)) = true
      C12_monitor     : forall c t0 ops, freed_in_same_poll c ops (fst (srun c t0 ops)) = false ->
                                         c12_ok c ops (fst (srun c t0 ops)) = true
@@ -16,8 +17,8 @@
    only with L in flight outside the class FreedInSamePoll).  The exact statements, for every
    transport, are pinned as ServerSpec.stmt_s12_rel / stmt_s12 (flag level: stmt_s_v12a, _v12b,
    _v12c_rel, _v12c).  The simulation they need (ServerSim*.v: observer vs model) is proved along
-   every run (ServerSim6.run_top); these flags, decided in the middle of a poll, are not threaded
-   through it yet. *)
+   every run (ServerSim6.run_top); the flags, decided in the middle of a poll, are threaded through
+   it in ServerProofsPB1 (v12a), PB2 (v12b), PB4 / PB6 (v12c, v12c_rel; clause (c) under B1). *)
 From Coq Require Import List Bool Arith NArith.
 Import ListNotations.
 From TarpcV Require Import Base Transport TimerWheel Server ServerMon ServerWitness ServerState ServerProps.
@@ -88,6 +89,33 @@ Theorem C12_monitor : forall (T C : Type) (tp : transport T response cmsg) (ctl 
   c12_ok c ops (fst (run tp ctl tfuel c t0 ops)) = true.
 Proof. exact s12. Qed.
 
+(* for a channel driven through tarpc's own execute() (ServerExec.v: futures TakeWhile/FilterMap/Map
+   transcribed, tied to the real Channel::execute by the srvx driver): stops_after_error is
+   discharged, only B1 (and the known class) remains *)
+From TarpcV Require Import ServerExec ServerExecProofs ServerExecProofs2.
+Theorem C12_monitor_rel_exec : forall (T C : Type) (tp : transport T response cmsg) (ctl : T -> C -> T)
+    (tfuel : T -> nat) (c : cfg) (t0 : T) (eops : list (eop C)),
+  tfuel_ok tp tfuel ->
+  let ops := exec_ops tp ctl tfuel c t0 eops in
+  let v := observe c ops (exec_trace tp ctl tfuel c t0 eops) in
+  c12_rel_ok c ops (exec_trace tp ctl tfuel c t0 eops) = true
+  /\ h_stop v = true /\ v_bad v = false /\ v12a v = true /\ v12b v = true
+  /\ (h_b1 v = true -> v12c_rel v = true).
+Proof. exact ServerExecProofs2.C12_monitor_rel_exec. Qed.
+
+Theorem C12_monitor_exec : forall (T C : Type) (tp : transport T response cmsg) (ctl : T -> C -> T)
+    (tfuel : T -> nat) (c : cfg) (t0 : T) (eops : list (eop C)),
+  tfuel_ok tp tfuel ->
+  let ops := exec_ops tp ctl tfuel c t0 eops in
+  let v := observe c ops (exec_trace tp ctl tfuel c t0 eops) in
+  freed_in_same_poll c ops (exec_trace tp ctl tfuel c t0 eops) = false ->
+  c12_ok c ops (exec_trace tp ctl tfuel c t0 eops) = true
+  /\ h_stop v = true /\ v_bad v = false /\ v12a v = true /\ v12b v = true
+  /\ (h_b1 v = true -> v12c v = true).
+Proof. exact ServerExecProofs2.C12_monitor_exec. Qed.
+
+Print Assumptions C12_monitor_rel_exec.
+Print Assumptions C12_monitor_exec.
 Print Assumptions C12_maxreq_below_limit.
 Print Assumptions C12_yield_within_limit.
 Print Assumptions C12_freed_in_same_poll_witness.
